@@ -37,7 +37,7 @@ func (ddpIrType).FreeFunc
 
 // C05: the compile-time ownership ledger. Recording a temporary appends exactly one unprotected entry for it
 func (*scope).addTemporary [C05]
-  requires scope != nil
+  requires [C05] scope != nil
   modifies compiler.scope, []compiler.varwrapper
   ensures result0 == val && result1 == typ
   ensures len(scope.temporaries) == old(len(scope.temporaries)) + 1
@@ -431,7 +431,7 @@ func (*scope).unprotectTemporary [C05]
 
 // a value is released by exactly one call of its descriptor's free function - and only if it is not primitive
 func (*compiler).freeNonPrimitive [C05]
-  requires c != nil && c.cbb != nil
+  requires [C05] c != nil && c.cbb != nil
   modifies g:$ncalls, g:$rterr
   ensures $ncalls == old($ncalls) + (typ.IsPrimitive() ? 0 : 1)
   callsite NewCall requires !typ.IsPrimitive() && arg1 == box(typ.FreeFunc()) && len(arg2) == 1 && arg2[0] == val
